@@ -577,3 +577,95 @@ func TestPropPublishFaults(t *testing.T) {
 		}
 	})
 }
+
+// TestPropExpiryDuringShutdown: a callback of the resource's group is still running (it
+// emitted a query event and has not returned yet) when Shutdown is called; the query event
+// expires while Shutdown waits for that callback. The final nil call is a callback of the
+// group like any other: it must not run while the other callback is still running, and it
+// runs at most once.
+func TestPropExpiryDuringShutdown(t *testing.T) {
+	rapid.Check(t, func(rt *rapid.T) {
+		workers := rapid.IntRange(1, 4).Draw(rt, "workers")
+		dur := rapid.SampledFrom([]int{1, 50, 1000}).Draw(rt, "durationMs")
+		shutdownFirst := rapid.Bool().Draw(rt, "shutdownBeforeExpiry")
+		grouped := rapid.Bool().Draw(rt, "sharedGroup")
+		var msg string
+		func() {
+			defer func() {
+				if v := recover(); v != nil {
+					msg = fmt.Sprintf("bubble ended abnormally: %v", v)
+				}
+			}()
+			synctest.Test(t, func(*testing.T) {
+				s := res.NewService("svc")
+				s.SetWorkerCount(workers)
+				s.SetLogger(nil)
+				s.SetQueryEventDuration(time.Duration(dur) * time.Millisecond)
+				opts := []res.Option{res.GetResource(func(r res.GetRequest) { r.NotFound() })}
+				if grouped {
+					opts = append(opts, res.Group("shared"))
+				}
+				s.Handle("q.$id", opts...)
+				conn := fakeconn.New()
+				served := make(chan struct{})
+				s.SetOnServe(func(*res.Service) { close(served) })
+				ret := make(chan error, 1)
+				go func() { ret <- s.Serve(conn) }()
+				<-served
+				var mu sync.Mutex
+				running, nils, overlap := false, 0, false
+				release := make(chan struct{})
+				started := make(chan struct{})
+				_ = s.With("svc.q.1", func(r res.Resource) {
+					mu.Lock()
+					running = true
+					mu.Unlock()
+					r.QueryEvent(func(qr res.QueryRequest) {
+						if qr != nil {
+							return
+						}
+						mu.Lock()
+						nils++
+						if running {
+							overlap = true
+						}
+						mu.Unlock()
+					})
+					close(started)
+					<-release
+					mu.Lock()
+					running = false
+					mu.Unlock()
+				})
+				<-started
+				shut := make(chan struct{})
+				if shutdownFirst {
+					go func() { _ = s.Shutdown(); close(shut) }()
+					synctest.Wait()
+					time.Sleep(time.Duration(dur)*time.Millisecond + time.Millisecond)
+				} else {
+					time.Sleep(time.Duration(dur)*time.Millisecond + time.Millisecond)
+					synctest.Wait()
+					go func() { _ = s.Shutdown(); close(shut) }()
+				}
+				synctest.Wait()
+				close(release)
+				<-shut
+				<-ret
+				synctest.Wait()
+				mu.Lock()
+				defer mu.Unlock()
+				switch {
+				case overlap:
+					msg = "the final nil call of the query event ran while another callback of the same group was still running"
+				case nils > 1:
+					msg = fmt.Sprintf("the callback was invoked with nil %d times", nils)
+				}
+			})
+		}()
+		ev.Case(true, evid.Hash("expiry-during-shutdown", workers, dur, shutdownFirst, grouped), "expiry-during-shutdown")
+		if msg != "" {
+			rt.Fatalf("%s (workers %d, duration %dms, Shutdown called before the expiry: %v, shared group: %v)", msg, workers, dur, shutdownFirst, grouped)
+		}
+	})
+}
